@@ -11,6 +11,7 @@ The loop body that is executed for the preservation obligation is the real AST o
 """
 from __future__ import annotations
 
+from pyvc.values import unmodelled as _unmodelled  # noqa: E402
 import z3
 
 from . import sym
@@ -149,7 +150,7 @@ class SpecList:
         from .values import Builtin
         if name == "append":
             return Builtin("SpecList.append", lambda x: self.appended.append(x))
-        raise it.exc("AttributeError", name)
+        raise _unmodelled(self, name)
 
     def py_len(self, it):
         return self.n + len(self.appended)
